@@ -674,6 +674,18 @@ fn flatten_glyph(context: &Context, glyph: &Glyph) -> Result<(), BadGlyph> {
         }
         inst.components = simple;
     }
+    // The composed transforms are new: recompute what the glyph remembers about its
+    // 2x2s, and fall back to contours if they no longer fit a composite glyph
+    // (e.g. 1.5 * 1.5 overflows F2Dot14, or the product differs between masters).
+    let glyph = Glyph::new(
+        glyph.name.clone(),
+        glyph.emit_to_binary,
+        glyph.codepoints.clone(),
+        glyph.sources().clone(),
+    )?;
+    if glyph.has_overflowing_component_transforms() || !glyph.has_consistent_components() {
+        return convert_components_to_contours(context, &glyph);
+    }
     context.glyphs.set(glyph);
     Ok(())
 }
